@@ -18,7 +18,7 @@
    primitives, through `kid` and through `epk`. *)
 From Model Require Import Base PyVal TableTypes C12Keys.
 From Gen Require Import Tables.
-From Proofs Require Import C12Proofs.
+From Proofs Require Import C12Proofs C12More.
 Open Scope N_scope.
 
 (* ---- the flags (table facts; expected literals from the property text) ---- *)
@@ -81,6 +81,21 @@ Theorem c12_as_dict_private_member_only_on_request :
     In m (dkeys params) \/ (is_False private = false /\ (py_truth private = true -> is_priv = true)).
 Proof. exact as_dict_ok_private_member. Qed.
 
+(* the other branch, for the record: `private is not False` (None, True, ...) on a
+   key that may answer returns the whole dict_value plus params *)
+Theorem c12_as_dict_full_copy :
+  forall reg is_priv d private params,
+    is_False private = false -> (py_truth private = true -> is_priv = true) ->
+    as_dict reg is_priv d private params = Ok (dupdate d params).
+Proof. exact as_dict_full_copy. Qed.
+
+(* the only failure of as_dict is the private-on-public conflict *)
+Theorem c12_as_dict_err :
+  forall reg is_priv d private params e,
+    as_dict reg is_priv d private params = Err e ->
+    e = EValue /\ py_truth private = true /\ is_priv = false.
+Proof. exact as_dict_err. Qed.
+
 (* non-interference: keys that agree on their non-private members have equal public exports *)
 Theorem c12_ni_as_dict :
   forall reg p1 p2 d1 d2 params,
@@ -111,6 +126,20 @@ Theorem c12_ni_keyset :
     Forall2 key_pub_equiv ks1 ks2 ->
     keyset_as_dict H ks1 (PBool false) params = keyset_as_dict H ks2 (PBool false) params.
 Proof. exact keyset_ni. Qed.
+
+(* a key set containing a public-only key refuses a private export as a whole *)
+Theorem c12_keyset_private_on_public :
+  forall H ks private params,
+    py_truth private = true ->
+    (exists k, In k ks /\ is_private k = false) ->
+    exists e, keyset_as_dict H ks private params = Err e.
+Proof. exact keyset_private_on_public. Qed.
+
+(* a public export of a key set can only fail with KeyError, when a kid has to be
+   generated for a key lacking a required member (excluded by key validation) *)
+Theorem c12_keyset_public_err :
+  forall H ks params e, keyset_as_dict H ks (PBool false) params = Err e -> e = EKey.
+Proof. exact keyset_public_err. Qed.
 
 (* ---- epk ---- *)
 (* the header written by prepare_ephemeral_key carries, under "epk", exactly the
@@ -265,6 +294,12 @@ Example c12_private_on_public_instance :
   py_truth (PBool true) = true.
 Proof. vm_compute. split; reflexivity. Qed.
 
+Example c12_keyset_private_on_public_instance :
+  keyset_as_dict ex_H
+    [{| k_kind := KOct; k_raw_private := true; k_dict := ex_oct |};
+     {| k_kind := KEC; k_raw_private := false; k_dict := ex_ec |}] (PBool true) [] = Err EValue.
+Proof. vm_compute. reflexivity. Qed.
+
 Example c12_thumbprint_instance :
   thumb_input value_registry_EC ex_ec =
   Ok [(asc "crv", PStr (asc "P-256")); (asc "kty", PStr (asc "EC"));
@@ -285,10 +320,14 @@ Print Assumptions c12_as_dict_public.
 Print Assumptions c12_as_dict_public_spec.
 Print Assumptions c12_as_dict_params.
 Print Assumptions c12_as_dict_private_member_only_on_request.
+Print Assumptions c12_as_dict_full_copy.
+Print Assumptions c12_as_dict_err.
 Print Assumptions c12_ni_as_dict.
 Print Assumptions c12_keyset_public.
 Print Assumptions c12_keyset_public_spec.
 Print Assumptions c12_ni_keyset.
+Print Assumptions c12_keyset_private_on_public.
+Print Assumptions c12_keyset_public_err.
 Print Assumptions c12_epk_public.
 Print Assumptions c12_ni_epk.
 Print Assumptions c12_private_on_public_dict.
